@@ -20,11 +20,11 @@ CLAIMED = {
     "C07": ("mir-smt+kani", "symbolic execution of the rustc MIR of the field kernels into SMT (bit-vector and integer encodings), decided by a z3/cvc5 portfolio; Kani for loop termination on zero representations",
             "full-width (no value-range reduction) functional correctness of the loop-free 62/64/128-bit field operations, conversions and constants modulo the prime, and absence of arithmetic panics; counterexamples are lifted to the public API and replayed natively",
             "rustc MIR dump, own translator (validated per run against native execution), z3 4.8/5.1, cvc5 1.0; Fermat/primality trusted; data-dependent loops (f62/f128 inv beyond zero, exp) outside", "DESIGN.md §2 C07"),
-    "C08": ("mir-smt", "MIR -> SMT with ring abstraction: extension-field formulas checked as polynomial identities over the integers",
+    "C08": ("mir-smt+kani", "MIR -> SMT with ring abstraction: extension-field formulas checked as polynomial identities over the integers; bounded model checking (Kani/CBMC) of the generic Quad/CubeExtension inv/conjugate/div/slice code at F_257 on symbolic slices",
             "mul/square/mul_base/frobenius and the generic Quad/Cube wrappers equal schoolbook arithmetic modulo the documented irreducible for all operands, as integer identities (hold in every commutative ring)",
-            "relative to C07 (base operations abstracted as ring operations); irreducibility, cubic inv/norm and every inv outside", "DESIGN.md §2 C08"),
+            "relative to C07 (base operations abstracted as ring operations); irreducibility outside; inversion / conjugation / division of the generic wrappers are decided at the toy field F_257 only (one symbolic coordinate per harness), not over the 64-bit fields", "DESIGN.md §2 C08"),
     "C09": ("kani", "bounded model checking (Kani/CBMC) of the generic FFT code instantiated at a toy field F_257, on symbolic slices",
-            "for each enumerated size/position the solver shows output == Horner evaluation (resp. interpolation inverts evaluation) for all 257 values of the symbolic coefficient; a wrong linear map is detected on some slice",
+            "for each enumerated size/position the solver shows output == Horner evaluation at offset*w^i (resp. interpolation inverts evaluation) for all 257 values of the symbolic coefficient; the same for the prover's segmented, column-batched LDE (RowMatrix::evaluate_polys[_over], Segment, ColMatrix::get_base_element) over base, quadratic and cubic columns, batch sizes 1/2/4 and domain offsets other than the generator",
             K_NOTE + "; toy field instantiation (transfer to the real fields rests on C07/C08); sizes >= 64, all-coefficients-symbolic and the concurrent variants outside", "DESIGN.md §2 C09"),
     "C10": ("kani", "bounded model checking (Kani/CBMC) with an injective transparent hasher: positive (prove->verify) and binding (accept => committed leaves, no surplus payload) obligations",
             "for trees of 4/8(/16) leaves and enumerated position lists and opening shapes, for all symbolic digests: honest openings verify and decompress; an accepted opening claims exactly the committed leaves and has the honest shape",
@@ -39,10 +39,10 @@ CLAIMED = {
             "for each enumerated (operation sequence, stream length, chunk size) and every stream content the streaming reader returns exactly what the slice reader returns and is never pessimistic in check_eor",
             K_NOTE + "; sequences longer than 4 operations, streams other than the enumerated lengths (0..9, 257..260 bytes), io errors other than short reads outside", "DESIGN.md §2 C13"),
     "C15": ("kani", "bounded model checking (Kani/CBMC) at F_257: folding identity on symbolic slices, position folding / layout / layer count over fully symbolic integers",
-            "apply_drp equals the coefficient-domain definition for every challenge (resp. every value of one coefficient) on the enumerated domains; fold_positions, map_positions_to_indexes and num_fri_layers equal their reference for all arguments in range",
-            K_NOTE + "; end-to-end prover->verifier acceptance is not decided here", "DESIGN.md §2 C15"),
+            "apply_drp equals the coefficient-domain definition for every challenge (resp. every value of one coefficient) on the enumerated domains; fold_positions, map_positions_to_indexes and num_fri_layers equal their reference for all arguments in range; FriVerifier::new accepts exactly the layer counts whose degree bookkeeping is consistent, for all degree bounds 2^k-1, blowups and remainder sizes; FriProofLayer::parse accepts exactly whole numbers of queries of base/quadratic/cubic elements and recomputes the leaves; honest toy proofs of the real prover are accepted by the real verifier (concrete instances)",
+            K_NOTE + "; end-to-end acceptance is decided on the enumerated toy instances only (concrete runs), not for all polynomials", "DESIGN.md §2 C15"),
     "C16": ("kani", "bounded model checking (Kani/CBMC) at F_257 over fully symbolic assertions, steps and exemption counts",
-            "transition divisor vanishes exactly on non-exempt steps, assertion divisors exactly on named steps, overlaps_with == step-set intersection, validation rules -- for every well-formed assertion (pair) at trace lengths 8 and 16",
+            "transition divisor vanishes exactly on non-exempt steps (exemption count symbolic and, separately, enumerated), assertion divisors exactly on named steps, overlaps_with == step-set intersection, validation rules -- for every well-formed assertion (pair) at trace lengths 8 and 16; every periodic/sequence assertion the constructors return (arguments over the full usize range) is well-formed, i.e. ill-formed ones are refused",
             K_NOTE + "; toy field; trace lengths > 16 (32 thorough); BoundaryConstraint value polynomials outside", "DESIGN.md §2 C16"),
     "C18": ("kani", "bounded model checking (Kani/CBMC) of the integer security estimate and the acceptance policy over the whole parameter space",
             "conjectured level == documented formula, monotone, never underflows; validate refuses exactly below the minimum / outside the option set -- for all queries, blowups, grinding factors, extensions, trace lengths, 3 fields x collision resistances",
